@@ -54,6 +54,20 @@ MUST_FIRE = [
      "a=candidate_indices, size=max_candidates, replace=False", "a=candidate_indices, size=max_candidates, replace=True", 2),
     ("gst-translation-dropped", ["C01", "C08"], ["R1.6", "R8.3"], P + "pool/_greedy_sampling.py",
      "query_indices[batch_size_x:] = unselected_cands[query_indices_y]", "query_indices[batch_size_x:] = query_indices_y"),
+    # ---- rules added from round-2 seeded changes
+    ("coreset-carry-erased", ["C01", "C02"], ["R1.4c", "R2.3"], P + "pool/_core_set.py",
+     "            latest_distance_tmp = latest_distance.copy()\n            latest_distance_tmp[latest_distance_tmp == 0] = np.inf\n",
+     "            latest_distance_tmp = np.full_like(latest_distance, np.inf)\n"),
+    ("falcun-fallback-not-recorded", ["C02"], ["R2.4"], P + "pool/_falcun.py",
+     "            rel_cand[query_indices] = np.nan\n            utilities_cand[b] = rel_cand\n",
+     "            utilities_cand[b, query_indices] = np.nan\n"),
+    ("rtal-kmeans-raw-random-state", ["C06"], ["R6.4"], P + "pool/_regression_tree_based_al.py",
+     "n_k_discrete[leaf], random_state=self.random_state_", "n_k_discrete[leaf], random_state=self.random_state"),
+    ("budget-manager-not-copied", ["C06", "C03"], ["R6.5", "R3"], P + "utils/_validation.py",
+     "budget_manager_ = copy.deepcopy(budget_manager)", "budget_manager_ = budget_manager"),
+    ("zliobaite-closed-form-decay", ["C04", "C10"], ["R4.4", "R10.3"], BZ,
+     "        for s in queried:\n            self.u_t_ = self.u_t_ * ((self.w - 1) / self.w) + s\n",
+     "        n = len(queried)\n        decay = (self.w - 1) / self.w\n        self.u_t_ = self.u_t_ * decay**n + np.sum(queried * decay ** (n - 1))\n"),
     # ---- C03
     ("split-set-state-deleted", ["C03"], ["R3"], BZ,
      "        self.random_state_.set_state(random_state_state)\n", "        pass\n"),
